@@ -106,6 +106,8 @@ def compare(r, m, with_doc=True, **kw):
     """None if the real outcome r and the model outcome m agree"""
     if m is None:
         return None
+    if r["r"] == "raise" and r.get("exn") == "RecursionError" and m["r"] == "fuel":
+        return None      # both diverge: defaults under an allow_unknown rule set that re-create unknown mappings, without end
     if r["r"] == "raise" or m["r"] != "ok":
         if r["r"] == "raise" and m["r"] == "raise":
             return None if r["exn"] == m["exn"] else "real raises %s (%s), model raises %s (%s)" % (r["exn"], r["site"], m["exn"], m["site"])
